@@ -275,9 +275,10 @@ class Filter:
         except (LiquidTypeError, FilterArgumentError) as err:
             err.token = self.token
             raise err
-        except (ValueError, ArithmeticError, LookupError, AttributeError) as err:
+        except (ValueError, ArithmeticError, LookupError, AttributeError, OSError) as err:
             # A value the filter can't work with: NaN or infinity where a number is
-            # needed, an integer too big to convert, bytes that are not text, ...
+            # needed, an integer too big to convert, bytes that are not text, a
+            # timestamp the platform can't represent, ...
             raise FilterValueError(f"{self.name}: {err}", token=self.token) from err
 
     async def evaluate_async(self, left: object, context: RenderContext) -> object:
@@ -293,9 +294,10 @@ class Filter:
         except (LiquidTypeError, FilterArgumentError) as err:
             err.token = self.token
             raise err
-        except (ValueError, ArithmeticError, LookupError, AttributeError) as err:
+        except (ValueError, ArithmeticError, LookupError, AttributeError, OSError) as err:
             # A value the filter can't work with: NaN or infinity where a number is
-            # needed, an integer too big to convert, bytes that are not text, ...
+            # needed, an integer too big to convert, bytes that are not text, a
+            # timestamp the platform can't represent, ...
             raise FilterValueError(f"{self.name}: {err}", token=self.token) from err
 
     def evaluate_args(
